@@ -418,7 +418,7 @@ Section WithData.
   Lemma get_ar_the_ar x : get_ar (the_section x) = the_ar x.
   Proof. reflexivity. Qed.
 
-  Lemma get_fail_flag x : get_fail (the_section x) = fail_flag x.
+  Lemma eff_fail_flag x : eff_fail (f_fo x) (the_section x) = fail_flag x.
   Proof. reflexivity. Qed.
 
   Lemma req_names_ok ds rn : req_names ds = Ok rn ->
@@ -503,29 +503,25 @@ Section WithData.
     - apply IH. discriminate.
   Qed.
 
-  Definition ecs_arg (x : finput) : option (list string) := if f_mds x then Some (f_ecs x) else None.
-
-  Lemma get_ec_cases x er : get_ec ectab (the_section x) (ecs_arg x) (f_req x) = Ok er ->
+  (* ecs: what Policy.filter knows about the requester's categories (None: no metadata store,
+     the requester is in no category) *)
+  Lemma get_ec_cases x ecs er : ecs_of ecs = f_ecs x ->
+    get_ec ectab (the_section x) ecs (f_req x) = Ok er ->
     (the_entries ectab x = [] /\ er = [])
-    \/ (the_entries ectab x <> [] /\ f_mds x = false /\ er = [])
-    \/ (the_entries ectab x <> [] /\ f_mds x = true
+    \/ (the_entries ectab x <> []
         /\ er = fold_left (ec_step (required_names x) (f_ecs x)) (the_entries ectab x) []).
   Proof.
-    unfold get_ec, the_entries, ecs_arg. destruct (the_section x) as [s|].
+    intros Hecs. unfold get_ec, the_entries. destruct (the_section x) as [s|].
     2:{ intros H; inversion H. left; split; reflexivity. }
     destruct (s_ecs s) as [|n0 names] eqn:En.
     { intros H; inversion H. left; split; reflexivity. }
     fold (maps_of ectab (n0 :: names)).
     destruct (req_names (f_req x)) as [rn| |] eqn:Er; try discriminate.
-    apply req_names_ok in Er. fold (required_names x) in Er. subst rn.
+    apply req_names_ok in Er. fold (required_names x) in Er. subst rn. rewrite Hecs.
     remember (maps_of ectab (n0 :: names)) as ents eqn:Em.
-    destruct (f_mds x).
-    - intros H; inversion H; subst er. destruct ents as [|e l].
-      + left. split; reflexivity.
-      + right; right. split; [discriminate|]. split; reflexivity.
-    - intros H; inversion H; subst er. destruct ents as [|e l].
-      + left. split; reflexivity.
-      + right; left. split; [discriminate|]. split; reflexivity.
+    intros H; inversion H; subst er. destruct ents as [|e l].
+    - left. split; reflexivity.
+    - right. split; [discriminate|reflexivity].
   Qed.
 
   Lemma lookup_names_restr n l o : lookup n (names_restr l) = Some o -> In n l.
@@ -537,12 +533,12 @@ Section WithData.
 
   (* every name that passes the entity-category stage is granted by the categories *)
   Lemma ec_stage x k us :
-    f_mds x = true -> the_entries ectab x <> [] -> ~ In "" (keys (f_ident x)) ->
+    the_entries ectab x <> [] -> ~ In "" (keys (f_ident x)) ->
     In (k, us) (fava rmatch (f_ident x)
                  (Some (names_restr (fold_left (ec_step (required_names x) (f_ecs x)) (the_entries ectab x) [])))) ->
     ec_name_ok ectab x k.
   Proof.
-    intros Hm Hne Hwf Hin.
+    intros Hne Hwf Hin.
     set (er := fold_left (ec_step (required_names x) (f_ecs x)) (the_entries ectab x) []) in *.
     assert (Her : er <> []) by (apply ec_fold_nonempty; exact Hne).
     assert (Hnr : names_restr er <> []) by (destruct er; [contradiction|discriminate]).
@@ -555,34 +551,37 @@ Section WithData.
     apply ec_fold_In in Hl. destruct Hl as [Hl|[[[] _]|[pre [e [post [Ee [Hi Hn]]]]]]].
     - exfalso. apply lower_empty in Hl. subst k. apply Hwf. unfold keys. apply in_map_iff.
       exists ("", us0). split; [reflexivity|exact Hu].
-    - split; [exact Hm|]. exists pre, e, post. split; [exact Ee|]. split; [apply entry_attrs_grants; exact Hi|].
+    - exists pre, e, post. split; [exact Ee|]. split; [apply entry_attrs_grants; exact Hi|].
       intros e' He' Hna n Hg. apply entry_attrs_grants in Hg. specialize (Hn e' He'). unfold resets in Hn.
       rewrite Hna, andb_true_r in Hn. apply negb_false_iff in Hn. apply is_nil_true in Hn. rewrite Hn in Hg. contradiction.
   Qed.
 
   (* ================================================================ F. Policy.filter and the entry points *)
 
-  Definition pfilter_of (x : finput) : result ava :=
-    pfilter rmatch ectab (f_ident x) (f_pol x) (f_sp x) (ecs_arg x) (f_ra x) (f_req x) (f_opt x).
+  (* Policy.filter on the situation x; ecs = what the store says about the requester's categories,
+     fo = the fail_on_missing argument *)
+  Definition pfilter_of (x : finput) (ecs : option (list string)) (fo : option bool) : result ava :=
+    pfilter rmatch ectab (f_ident x) (f_pol x) (f_sp x) ecs (f_ra x) (f_req x) (f_opt x) fo.
 
-  Lemma foa_stage x r1 : the_entries ectab x = [] ->
-    filter_on_attributes (f_ident x) (f_req x) (f_opt x) (fail_flag x) = Ok r1 ->
+  (* fl = the flag filter_on_attributes is run with; it is on whenever failing is in effect *)
+  Lemma foa_stage x fl r1 : the_entries ectab x = [] -> (fail_flag x = true -> fl = true) ->
+    filter_on_attributes (f_ident x) (f_req x) (f_opt x) fl = Ok r1 ->
     subset (f_ident x) r1
     /\ (forall k us, In (k, us) r1 -> decl_name_ok x k /\ forall v, In v (held us) -> decl_value_ok x k v)
     /\ ~ must_fail ectab x.
   Proof.
-    intros He Hf. split; [|split].
+    intros He Hfl Hf. split; [|split].
     - intros k vs Hin. destruct (foa_sound _ _ _ _ _ Hf k vs Hin) as [us [Hu [Hs _]]]. exists us; split; assumption.
     - intros k us Hin. destruct (foa_sound _ _ _ _ _ Hf k us Hin) as [us0 [_ [_ [Hex Hd]]]].
       split; [exact Hex|exact Hd].
-    - intros [_ [Hff [d [Hd Hu]]]].
+    - intros [_ [Hff [d [Hd Hu]]]]. specialize (Hfl Hff). subst fl.
       unfold filter_on_attributes in Hf.
-      destruct (foa_req (f_ident x) (fail_flag x) (f_req x) []) as [res| |] eqn:E; try discriminate.
+      destruct (foa_req (f_ident x) true (f_req x) []) as [res| |] eqn:E; try discriminate.
       destruct (foa_req_complete _ _ _ _ _ E d Hd) as [[fn [us [Hm [Hl Hv]]]]|[_ Hfalse]].
       + apply match_attr_name_sound in Hm as [_ [_ Hdes]]. apply lookup_In in Hl.
         destruct (Hu fn us Hl Hdes) as [Hne Hnone].
         destruct Hv as [Hv|[v [Hv1 Hv2]]]; [contradiction|]. exact (Hnone v Hv1 Hv2).
-      + congruence.
+      + discriminate Hfalse.
   Qed.
 
   Lemma assemble x r1 :
@@ -609,15 +608,18 @@ Section WithData.
     l <> [] -> match l with _ :: _ => a | [] => b end = a.
   Proof. destruct l; [contradiction|reflexivity]. Qed.
 
-  Lemma pfilter_released_ok x r :
-    (the_entries ectab x <> [] -> f_mds x = true) ->
+  (* what ANY pass of Policy.filter lets through obeys the property, provided the pass fails on
+     missing attributes whenever failing is in effect *)
+  Lemma pfilter_released_ok x ecs fo r :
+    ecs_of ecs = f_ecs x ->
+    (fail_flag x = true -> eff_fail fo (the_section x) = true) ->
     (the_entries ectab x <> [] -> ~ In "" (keys (f_ident x))) ->
-    pfilter_of x = Ok r -> released_ok rmatch ectab x r.
+    pfilter_of x ecs fo = Ok r -> released_ok rmatch ectab x r.
   Proof.
-    intros Hg2 Hwf. unfold pfilter_of, pfilter. rewrite applicable_the_section.
-    destruct (get_ec ectab (the_section x) (ecs_arg x) (f_req x)) as [er| |] eqn:Eg; try discriminate.
-    apply get_ec_cases in Eg. rewrite get_ar_the_ar, get_fail_flag.
-    destruct Eg as [[Hent ->]|[[Hent [Hm _]]|[Hent [Hm ->]]]].
+    intros Hecs Hfl Hwf. unfold pfilter_of, pfilter. rewrite applicable_the_section.
+    destruct (get_ec ectab (the_section x) ecs (f_req x)) as [er| |] eqn:Eg; try discriminate.
+    apply (get_ec_cases x ecs er Hecs) in Eg. rewrite get_ar_the_ar.
+    destruct Eg as [[Hent ->]|[Hent ->]].
     - (* no entity categories in force *)
       destruct (is_nil (f_req x) && is_nil (f_opt x)) eqn:Enil.
       + intros H; inversion H; subst r. apply assemble.
@@ -627,31 +629,30 @@ Section WithData.
           apply is_nil_true in E1, E2. unfold declared. rewrite E1, E2. reflexivity.
         * intros [_ [_ [d [Hd _]]]]. apply andb_true_iff in Enil as [E1 _]. apply is_nil_true in E1.
           rewrite E1 in Hd. contradiction.
-      + destruct (filter_on_attributes (f_ident x) (f_req x) (f_opt x) (fail_flag x)) as [r1| |] eqn:Ef; try discriminate.
-        intros H; inversion H; subst r. destruct (foa_stage x r1 Hent Ef) as [H1 [H2 H3]]. apply assemble.
+      + destruct (filter_on_attributes (f_ident x) (f_req x) (f_opt x) (eff_fail fo (the_section x))) as [r1| |] eqn:Ef; try discriminate.
+        intros H; inversion H; subst r. destruct (foa_stage x _ r1 Hent Hfl Ef) as [H1 [H2 H3]]. apply assemble.
         * exact H1.
         * intros Hf. exfalso. apply Hf; exact Hent.
         * intros _ _. exact H2.
         * exact H3.
-    - specialize (Hg2 Hent). congruence.
     - (* entity categories decide *)
       rewrite match_nonempty by (apply ec_fold_nonempty; exact Hent).
       intros H; apply Ok_inj in H; subst r. apply assemble.
       + apply fava_subset.
-      + intros _ k us Hin. eapply ec_stage; [exact Hm|exact Hent|apply Hwf; exact Hent|exact Hin].
+      + intros _ k us Hin. eapply ec_stage; [exact Hent|apply Hwf; exact Hent|exact Hin].
       + intros Hf. exfalso. apply Hf. exact Hent.
       + intros [Hf _]. apply Hf. exact Hent.
   Qed.
 
   (* the sub-multiset part needs no hypothesis at all *)
-  Lemma pfilter_subset a p sp ecs ra req opt r :
-    pfilter rmatch ectab a p sp ecs ra req opt = Ok r -> subset a r.
+  Lemma pfilter_subset a p sp ecs ra req opt fo r :
+    pfilter rmatch ectab a p sp ecs ra req opt fo = Ok r -> subset a r.
   Proof.
     unfold pfilter. destruct (get_ec ectab (applicable p sp ra) ecs req) as [er| |]; try discriminate.
     destruct er as [|n0 er'].
     - destruct (is_nil req && is_nil opt).
       + intros H; apply Ok_inj in H; subst r. apply fava_subset.
-      + destruct (filter_on_attributes a req opt (get_fail (applicable p sp ra))) as [r1| |] eqn:Ef; try discriminate.
+      + destruct (filter_on_attributes a req opt (eff_fail fo (applicable p sp ra))) as [r1| |] eqn:Ef; try discriminate.
         intros H; apply Ok_inj in H; subst r. eapply subset_trans; [|apply fava_subset].
         intros k vs Hin. destruct (foa_sound _ _ _ _ _ Ef k vs Hin) as [us [Hu [Hs _]]]. exists us; split; assumption.
     - intros H; apply Ok_inj in H; subst r. eapply subset_trans; apply fava_subset.
@@ -675,136 +676,135 @@ Section WithData.
   Lemma subset_mono a r r' : subset a r -> (forall e, In e r' -> In e r) -> subset a r'.
   Proof. intros H Hi k vs Hin. apply H. apply Hi; exact Hin. Qed.
 
-  Lemma ecs_arg_of_md x req opt : ecs_arg (of_md x req opt) = eff_ecs (i_md x).
-  Proof. unfold ecs_arg, of_md, eff_ecs. cbn. destruct (i_md x); reflexivity. Qed.
+  Lemma ecs_of_md x req opt fo : ecs_of (eff_ecs (i_md x)) = f_ecs (of_md x req opt fo).
+  Proof. unfold of_md, eff_ecs, ecs_of. cbn. destruct (i_md x); reflexivity. Qed.
 
-  Lemma pfilter_of_md x req opt :
-    pfilter_of (of_md x req opt)
-    = pfilter rmatch ectab (i_ident x) (i_pol x) (i_sp x) (eff_ecs (i_md x)) (eff_ra (i_md x)) req opt.
-  Proof. unfold pfilter_of. rewrite ecs_arg_of_md. reflexivity. Qed.
-
-  Lemma restrict_of_md x :
-    restrict rmatch ectab (i_ident x) (i_pol x) (i_sp x) (i_md x)
-    = pfilter_of (of_md x (eff_required (i_md x)) (eff_optional (i_md x))).
-  Proof. rewrite pfilter_of_md. reflexivity. Qed.
+  (* one pass of Policy.filter (argument fo) seen from the situation of_md x req opt fo' *)
+  Lemma of_md_released_ok x req opt fo fo' r :
+    (fail_flag (of_md x req opt fo') = true -> eff_fail fo (the_section (of_md x req opt fo')) = true) ->
+    (the_entries ectab (of_md x req opt fo') <> [] -> ~ In "" (keys (i_ident x))) ->
+    pfilter rmatch ectab (i_ident x) (i_pol x) (i_sp x) (eff_ecs (i_md x)) (eff_ra (i_md x)) req opt fo = Ok r ->
+    released_ok rmatch ectab (of_md x req opt fo') r.
+  Proof.
+    intros Hfl Hwf Hf. apply (pfilter_released_ok _ (eff_ecs (i_md x)) fo);
+      [apply ecs_of_md|exact Hfl|exact Hwf|exact Hf].
+  Qed.
 
   Lemma f_ident_flat x : f_ident (flat x) = i_ident x.
-  Proof. unfold flat. destruct (i_entry x); reflexivity. Qed.
+  Proof. unfold flat. destruct (i_entry x) as [? ? ?|? ? ?|?|?|?]; reflexivity. Qed.
 
-  Lemma class2_false x : class2 ectab x = false -> the_entries ectab (flat x) <> [] -> f_mds (flat x) = true.
-  Proof.
-    unfold class2. intros H Hne. apply is_nil_false in Hne. rewrite Hne in H. cbn in H.
-    apply negb_false_iff in H. exact H.
-  Qed.
-
-  Lemma wf_true x : wf ectab x = true -> the_entries ectab (flat x) <> [] -> ~ In "" (keys (f_ident (flat x))).
+  Lemma wf_true x : wf ectab x = true -> the_entries ectab (flat x) <> [] -> ~ In "" (keys (i_ident x)).
   Proof.
     unfold wf. intros H Hne. apply is_nil_false in Hne. rewrite Hne in H. cbn in H.
-    apply negb_true_iff in H. rewrite f_ident_flat. intros Hi. apply mem_In in Hi. congruence.
+    apply negb_true_iff in H. intros Hi. apply mem_In in Hi. congruence.
   Qed.
 
-  (* the released attributes of every entry point, under the two structural hypotheses *)
+  (* the released attributes of every entry point *)
   Lemma entry_released_ok x r :
-    class2 ectab x = false -> wf ectab x = true ->
-    o_out (run rmatch ectab x) = Ok r ->
-    (i_entry x = EServer -> restrict rmatch ectab (i_ident x) (i_pol x) (i_sp x) (i_md x) <> Missing) ->
-    released_ok rmatch ectab (flat x) r.
+    wf ectab x = true -> o_out (run rmatch ectab x) = Ok r -> released_ok rmatch ectab (flat x) r.
   Proof.
-    intros Hc2 Hw. pose proof (class2_false x Hc2) as Hg2. pose proof (wf_true x Hw) as Hwf.
-    unfold run. unfold flat in *. destruct (i_entry x) as [fail req opt|req opt| | |] eqn:Ee; cbn [o_out].
+    intros Hw. pose proof (wf_true x Hw) as Hwf.
+    unfold run. unfold flat in *. destruct (i_entry x) as [fail req opt|req opt fo|fo|fo|be] eqn:Ee; cbn [o_out].
     - (* filter_on_attributes *)
-      intros Hf _.
+      intros Hf.
       set (fx := {| f_ident := i_ident x; f_pol := foa_policy fail; f_sp := "default"; f_mds := false;
-                    f_ecs := []; f_ra := None; f_req := req; f_opt := opt |}) in *.
+                    f_ecs := []; f_ra := None; f_req := req; f_opt := opt; f_fo := None |}) in *.
       assert (Hent : the_entries ectab fx = []) by reflexivity.
       assert (Hff : fail_flag fx = fail) by reflexivity.
       assert (Har : the_ar fx = None) by reflexivity.
-      change (filter_on_attributes (f_ident fx) (f_req fx) (f_opt fx) fail = Ok r) in Hf. rewrite <- Hff in Hf.
-      destruct (foa_stage fx r Hent Hf) as [H1 [H2 H3]].
+      change (filter_on_attributes (f_ident fx) (f_req fx) (f_opt fx) fail = Ok r) in Hf.
+      assert (Hfl : fail_flag fx = true -> fail = true) by (rewrite Hff; auto).
+      destruct (foa_stage fx fail r Hent Hfl Hf) as [H1 [H2 H3]].
       change r with (fava rmatch r None). rewrite <- Har. apply assemble.
       + exact H1.
       + intros Hc. exfalso. apply Hc; exact Hent.
       + intros _ _. exact H2.
       + exact H3.
-    - intros Hf _. rewrite <- pfilter_of_md in Hf. apply pfilter_released_ok; assumption.
-    - intros Hf _. rewrite restrict_of_md in Hf. apply pfilter_released_ok; assumption.
-    - intros Hf _. rewrite restrict_of_md in Hf. apply pfilter_released_ok; assumption.
-    - intros Hf Hnm. specialize (Hnm eq_refl). unfold authn_response, setup_assertion in Hf.
-      destruct (restrict rmatch ectab (i_ident x) (i_pol x) (i_sp x) (i_md x)) as [out| |] eqn:Er; try discriminate; [|contradiction].
-      inversion Hf; subst r. rewrite restrict_of_md in Er.
-      eapply released_ok_mono; [apply pfilter_released_ok; [exact Hg2|exact Hwf|exact Er]|].
-      intros e. apply self_after_In.
+    - intros Hf. apply (of_md_released_ok x req opt fo fo r); [intros H; exact H|exact Hwf|exact Hf].
+    - intros Hf. apply (of_md_released_ok x _ _ fo fo r); [intros H; exact H|exact Hwf|exact Hf].
+    - intros Hf. apply (of_md_released_ok x _ _ fo fo r); [intros H; exact H|exact Hwf|exact Hf].
+    - (* Server: the first pass, or (best effort) the second pass with fail_on_missing=False *)
+      intros Hf. unfold authn_response, setup_assertion in Hf.
+      destruct (restrict rmatch ectab (i_ident x) (i_pol x) (i_sp x) (i_md x) None) as [out| |] eqn:Er; try discriminate.
+      + inversion Hf; subst r.
+        eapply released_ok_mono; [|intros e; apply self_after_In].
+        apply (of_md_released_ok x _ _ None _ out); [|exact Hwf|exact Er].
+        destruct be; [intros H; cbn in H; discriminate H|intros H; exact H].
+      + destruct be; [|discriminate].
+        destruct (restrict rmatch ectab (i_ident x) (i_pol x) (i_sp x) (i_md x) (Some false)) as [out| |] eqn:Er2; try discriminate.
+        inversion Hf; subst r.
+        eapply released_ok_mono; [|intros e; apply self_after_In].
+        apply (of_md_released_ok x _ _ (Some false) _ out); [|exact Hwf|exact Er2].
+        intros H; cbn in H; discriminate H.
   Qed.
-
-  Lemma class1_false x : class1 rmatch ectab x = false ->
-    i_entry x = EServer -> restrict rmatch ectab (i_ident x) (i_pol x) (i_sp x) (i_md x) <> Missing.
-  Proof. unfold class1. intros H E. rewrite E in H. destruct (restrict _ _ _ _ _ _); congruence. Qed.
 
   Lemma caller_unchanged x : o_caller (run rmatch ectab x) = i_ident x.
   Proof. unfold run. destruct (i_entry x); reflexivity. Qed.
 
   Lemma o_self_cases x : match o_self (run rmatch ectab x) with
-                         | Some s => i_entry x = EApply /\ s = self_after (i_ident x) (o_out (run rmatch ectab x))
+                         | Some s => s = self_after (i_ident x) (o_out (run rmatch ectab x))
                          | None => True
                          end.
   Proof. unfold run. destruct (i_entry x); cbn; auto. Qed.
 
-  (* main theorem: outside the two finding classes the model satisfies the property, for every
-     identity, policy, requester metadata, regex matcher, category table and entry point *)
-  Lemma run_spec x : guard rmatch ectab x = true -> spec rmatch ectab (flat x) (run rmatch ectab x).
+  (* main theorem: the model satisfies the property, for every identity, policy, requester
+     metadata, regex matcher, category table and entry point (guard = the input assumption wf) *)
+  Lemma run_spec x : guard ectab x = true -> spec rmatch ectab (flat x) (run rmatch ectab x).
   Proof.
-    unfold guard. intros H. apply andb_true_iff in H as [H Hw]. apply andb_true_iff in H as [H1 H2].
-    apply negb_true_iff in H1, H2. unfold spec. split; [rewrite caller_unchanged, f_ident_flat; reflexivity|].
+    unfold guard. intros Hw. unfold spec. split; [rewrite caller_unchanged, f_ident_flat; reflexivity|].
     destruct (o_out (run rmatch ectab x)) as [r| |] eqn:Eo; [|exact I|exact I].
     assert (Hr : released_ok rmatch ectab (flat x) r).
-    { apply entry_released_ok; [exact H2|exact Hw|exact Eo|apply class1_false; exact H1]. }
+    { apply entry_released_ok; [exact Hw|exact Eo]. }
     split; [exact Hr|].
     pose proof (o_self_cases x) as Hs. destruct (o_self (run rmatch ectab x)) as [s|]; [|exact I].
-    destruct Hs as [_ ->]. rewrite Eo. eapply released_ok_mono; [exact Hr|]. intros e. apply self_after_In.
+    rewrite Hs, Eo. eapply released_ok_mono; [exact Hr|]. intros e. apply self_after_In.
   Qed.
 
-  (* (1) of the property holds with no hypothesis whatsoever (also inside the finding classes) *)
+  (* (1) of the property holds with no hypothesis whatsoever *)
   Lemma release_subset x r : o_out (run rmatch ectab x) = Ok r -> subset (i_ident x) r.
   Proof.
-    unfold run. destruct (i_entry x) as [fail req opt|req opt| | |]; cbn [o_out].
+    unfold run. destruct (i_entry x) as [fail req opt|req opt fo|fo|fo|be]; cbn [o_out].
     - intros Hf k vs Hin. destruct (foa_sound _ _ _ _ _ Hf k vs Hin) as [us [Hu [Hs _]]]. exists us; split; assumption.
     - apply pfilter_subset.
     - apply pfilter_subset.
     - apply pfilter_subset.
     - unfold authn_response, setup_assertion.
-      destruct (restrict rmatch ectab (i_ident x) (i_pol x) (i_sp x) (i_md x)) as [out| |] eqn:Er; try discriminate.
+      destruct (restrict rmatch ectab (i_ident x) (i_pol x) (i_sp x) (i_md x) None) as [out| |] eqn:Er; try discriminate.
       + intros H; inversion H. eapply subset_mono; [eapply pfilter_subset; exact Er|]. intros e. apply self_after_In.
-      + intros H; inversion H. apply subset_refl.
+      + destruct be; [|discriminate].
+        destruct (restrict rmatch ectab (i_ident x) (i_pol x) (i_sp x) (i_md x) (Some false)) as [out| |] eqn:Er2; try discriminate.
+        intros H; inversion H. eapply subset_mono; [eapply pfilter_subset; exact Er2|]. intros e. apply self_after_In.
   Qed.
 
-  (* (5): at the Policy level a required attribute that cannot be supplied is an error *)
+  (* (5): a required attribute that cannot be supplied while failing is in effect is an error at
+     EVERY entry point - at the Server (best_effort false) an error response, never an assertion.
+     No wf hypothesis: must_fail says that no entity categories are in force. *)
   Lemma missing_required_is_error x :
-    i_entry x <> EServer -> must_fail ectab (flat x) -> forall r, o_out (run rmatch ectab x) <> Ok r.
+    must_fail ectab (flat x) -> forall r, o_out (run rmatch ectab x) <> Ok r.
   Proof.
-    intros Hns Hmf r Ho. pose proof Hmf as [Hnf _].
+    intros Hmf r Ho. pose proof Hmf as [Hnf _].
     assert (Hent : the_entries ectab (flat x) = []).
     { destruct (the_entries ectab (flat x)) eqn:E; [reflexivity|]. exfalso. apply Hnf. unfold ec_in_force. rewrite E. discriminate. }
     assert (Hr : released_ok rmatch ectab (flat x) r).
-    { apply entry_released_ok.
-      - unfold class2. rewrite Hent. reflexivity.
-      - unfold wf. rewrite Hent. reflexivity.
-      - exact Ho.
-      - intros E. contradiction. }
+    { apply entry_released_ok; [|exact Ho]. unfold wf. rewrite Hent. reflexivity. }
     destruct Hr as [_ [_ Hn]]. exact (Hn Hmf).
   Qed.
 
-  (* Server.setup_assertion with best_effort = False obeys the property *)
-  Lemma setup_assertion_strict x r :
-    class2 ectab x = false -> wf ectab x = true -> i_entry x = EServer ->
-    setup_assertion rmatch ectab false (i_ident x) (i_pol x) (i_sp x) (i_md x) = Ok r ->
-    released_ok rmatch ectab (flat x) r.
+  (* what the Server puts into the assertion is always the outcome of a pass of the policy over the
+     identity - the first one, or with best_effort the one that does not fail on missing
+     attributes - cut down to the identity's keys; never the identity itself *)
+  Lemma server_release_is_policy_output x be r :
+    i_entry x = EServer be -> o_out (run rmatch ectab x) = Ok r ->
+    exists fo out, restrict rmatch ectab (i_ident x) (i_pol x) (i_sp x) (i_md x) fo = Ok out
+                   /\ (fo = None \/ (be = true /\ fo = Some false))
+                   /\ r = self_after (i_ident x) (Ok out).
   Proof.
-    intros Hc2 Hw Ee. unfold setup_assertion.
-    destruct (restrict rmatch ectab (i_ident x) (i_pol x) (i_sp x) (i_md x)) as [out| |] eqn:Er; try discriminate.
-    intros H; inversion H; subst r. unfold flat. rewrite Ee. rewrite restrict_of_md in Er.
-    pose proof (class2_false x Hc2) as Hg2. pose proof (wf_true x Hw) as Hwf. unfold flat in Hg2, Hwf. rewrite Ee in Hg2, Hwf.
-    eapply released_ok_mono; [apply pfilter_released_ok; [exact Hg2|exact Hwf|exact Er]|].
-    intros e. apply self_after_In.
+    intros Ee. unfold run. rewrite Ee. cbn [o_out]. unfold authn_response, setup_assertion.
+    destruct (restrict rmatch ectab (i_ident x) (i_pol x) (i_sp x) (i_md x) None) as [out| |] eqn:Er; try discriminate.
+    - intros H; inversion H. exists None, out. split; [exact Er|]. split; [left; reflexivity|reflexivity].
+    - destruct be; [|discriminate].
+      destruct (restrict rmatch ectab (i_ident x) (i_pol x) (i_sp x) (i_md x) (Some false)) as [out| |] eqn:Er2; try discriminate.
+      intros H; inversion H. exists (Some false), out. split; [exact Er2|]. split; [right; split; reflexivity|reflexivity].
   Qed.
 End WithData.
 
@@ -925,7 +925,7 @@ Section Reflect.
   Qed.
 
   Lemma ec_name_ok_b_iff x k : ec_name_ok_b ectab x k = true <-> ec_name_ok ectab x k.
-  Proof. unfold ec_name_ok_b, ec_name_ok. rewrite andb_true_iff, ec_scan_iff. tauto. Qed.
+  Proof. unfold ec_name_ok_b, ec_name_ok. apply ec_scan_iff. Qed.
 
   Lemma unsuppliable_b_iff ident d : unsuppliable_b ident d = true <-> unsuppliable ident d.
   Proof.
@@ -1028,20 +1028,19 @@ Section Corollaries.
   Variable rmatch : string -> string -> bool.
   Variable ectab : list (string * ecmap).
 
-  Lemma release_allowed x r : guard rmatch ectab x = true ->
+  Lemma release_allowed x r : guard ectab x = true ->
     o_out (run rmatch ectab x) = Ok r -> allowed rmatch ectab (flat x) r.
   Proof.
     intros Hg Ho. destruct (run_spec rmatch ectab x Hg) as [_ H]. rewrite Ho in H. destruct H as [[_ [H _]] _]. exact H.
   Qed.
 
-  Lemma class1_not_server x : i_entry x <> EServer -> class1 rmatch ectab x = false.
-  Proof. unfold class1. destruct (i_entry x); try reflexivity. intros H; contradiction. Qed.
-
-  Lemma policy_level_holds x : i_entry x <> EServer -> class2 ectab x = false -> wf ectab x = true ->
+  Lemma policy_level_holds x : (forall be, i_entry x <> EServer be) -> wf ectab x = true ->
     spec rmatch ectab (flat x) (run rmatch ectab x).
-  Proof.
-    intros Hn H2 Hw. apply run_spec. unfold guard. rewrite (class1_not_server x Hn), H2, Hw. reflexivity.
-  Qed.
+  Proof. intros _ Hw. apply run_spec. exact Hw. Qed.
+
+  (* without entity categories in force there is no input assumption at all *)
+  Lemma no_ec_holds x : the_entries ectab (flat x) = [] -> spec rmatch ectab (flat x) (run rmatch ectab x).
+  Proof. intros He. apply run_spec. unfold guard, wf. rewrite He. reflexivity. Qed.
 End Corollaries.
 
 Definition URIf := "urn:oasis:names:tc:SAML:2.0:attrname-format:uri".
@@ -1057,43 +1056,82 @@ Definition w_md (gn_required : bool) : mdinfo :=
      md_sid := None; md_sid_loc := (None, None); md_ecs := []; md_ra := None |}.
 Definition no_rx (r v : string) : bool := false.
 
-(* finding 1: the SP requires givenName, the user has none; through Server._authn_response the
-   MissingValue is swallowed and the unfiltered identity (incl. eduPersonEntitlement) is released *)
+(* finding C10-F1 (repaired by a4e3dbdd): the SP requires givenName, the user has none; through the
+   OLD Server._authn_response the MissingValue was swallowed and the unfiltered identity (incl.
+   eduPersonEntitlement) released, although the caller said best_effort=False *)
 Definition witness1 : input :=
-  {| i_ident := w_ident; i_pol := None; i_sp := "https://sp.example.org/sp.xml"; i_md := Some (w_md true); i_entry := EServer |}.
+  {| i_ident := w_ident; i_pol := None; i_sp := "https://sp.example.org/sp.xml"; i_md := Some (w_md true);
+     i_entry := EServer false |}.
 
-Example witness1_unfiltered : o_out (run no_rx [] witness1) = Ok w_ident.
+Example witness1_v0_unfiltered : o_out (run_v0 no_rx [] witness1) = Ok w_ident.
 Proof. vm_compute. reflexivity. Qed.
 
-Lemma server_release_refuted : exists rmatch ectab x, ~ spec rmatch ectab (flat x) (run rmatch ectab x).
+Lemma server_release_v0_refuted : exists rmatch ectab x, ~ spec rmatch ectab (flat x) (run_v0 rmatch ectab x).
 Proof.
   exists no_rx, [], witness1. intros H. apply spec_b_iff in H. vm_compute in H. discriminate.
 Qed.
 
+(* the code as it is now: an error response; with best_effort what the requester asked for and the
+   user has (mail), never the entitlement *)
+Example witness1_now_error :
+  must_fail_b [] (flat witness1) = true /\ o_out (run no_rx [] witness1) = Missing.
+Proof. vm_compute. split; reflexivity. Qed.
+
+Definition witness1_be : input :=
+  {| i_ident := w_ident; i_pol := None; i_sp := "https://sp.example.org/sp.xml"; i_md := Some (w_md true);
+     i_entry := EServer true |}.
+Example witness1_best_effort_filtered :
+  o_out (run no_rx [] witness1_be) = Ok [("mail", VL ["a@example.org"; "b@example.com"])]
+  /\ o_out (run_v0 no_rx [] witness1_be) = Ok w_ident.
+Proof. vm_compute. split; reflexivity. Qed.
+
+(* best effort, but the second pass fails too: the SP requires a VALUE of mail the user does not
+   hold (and givenName, which makes the first pass fail): _filter_values(must=True) raises *)
+Definition w_mail_v : reqattr :=
+  {| ra_name := "urn:oid:0.9.2342.19200300.100.1.3"; ra_nf := Some URIf; ra_friendly := Some "mail";
+     ra_values := ["c@example.net"]; ra_loc_l := Some "mail"; ra_loc_r := Some "mail" |}.
+Definition witness1_be2 : input :=
+  {| i_ident := w_ident; i_pol := None; i_sp := "https://sp.example.org/sp.xml";
+     i_md := Some {| md_ras := [(w_gn, Some "true"); (w_mail_v, Some "true")]; md_sid := None;
+                     md_sid_loc := (None, None); md_ecs := []; md_ra := None |};
+     i_entry := EServer true |}.
+Example witness1_best_effort_second_pass_fails : o_out (run no_rx [] witness1_be2) = Missing.
+Proof. vm_compute. reflexivity. Qed.
+
 (* the same request at the Policy level is an error, as the property demands *)
 Definition witness1_policy : input :=
-  {| i_ident := w_ident; i_pol := None; i_sp := "https://sp.example.org/sp.xml"; i_md := Some (w_md true); i_entry := ERestrict |}.
+  {| i_ident := w_ident; i_pol := None; i_sp := "https://sp.example.org/sp.xml"; i_md := Some (w_md true);
+     i_entry := ERestrict None |}.
 Example witness1_policy_missing :
   must_fail_b [] (flat witness1_policy) = true /\ o_out (run no_rx [] witness1_policy) = Missing.
 Proof. vm_compute. split; reflexivity. Qed.
 
-(* finding 2: entity categories configured, Policy without metadata store: nothing is filtered *)
+(* finding C10-F2 (repaired by 47cc754e): entity categories configured, Policy without metadata
+   store: the OLD code filtered nothing *)
 Definition w_tab : list (string * ecmap) :=
-  [("m", [{| ec_key := KS ""; ec_attrs := ["eduPersonTargetedID"]; ec_only_required := false; ec_no_agg := false |}])].
+  [("m", [{| ec_key := KS ""; ec_attrs := ["eduPersonTargetedID"]; ec_only_required := false; ec_no_agg := false |};
+          {| ec_key := KS "http://ec/rs"; ec_attrs := ["mail"]; ec_only_required := false; ec_no_agg := false |}])].
+Definition w_ident2 : ava := ("eduPersonTargetedID", VL ["t1"]) :: w_ident.
 Definition witness2 : input :=
-  {| i_ident := w_ident;
+  {| i_ident := w_ident2;
      i_pol := Some [("default", Some {| s_ar := None; s_fail := None; s_ecs := ["m"]; s_bare := false |})];
-     i_sp := "https://sp.example.org/sp.xml"; i_md := None; i_entry := ERestrict |}.
+     i_sp := "https://sp.example.org/sp.xml"; i_md := None; i_entry := ERestrict None |}.
 
-Example witness2_unfiltered : o_out (run no_rx w_tab witness2) = Ok w_ident.
+Example witness2_v0_unfiltered : o_out (run_v0 no_rx w_tab witness2) = Ok w_ident2.
 Proof. vm_compute. reflexivity. Qed.
 
-Lemma nostore_refuted : exists rmatch ectab x, i_entry x = ERestrict /\ ~ spec rmatch ectab (flat x) (run rmatch ectab x).
+Lemma nostore_v0_refuted : exists rmatch ectab x,
+  i_entry x = ERestrict None /\ ~ spec rmatch ectab (flat x) (run_v0 rmatch ectab x).
 Proof.
   exists no_rx, w_tab, witness2. split; [reflexivity|]. intros H. apply spec_b_iff in H. vm_compute in H. discriminate.
 Qed.
 
-(* non-vacuity of the guarded theorem: a request inside the guard on which every filter bites.
+(* now: the requester is in no category, only the always-released attribute passes *)
+Example witness2_now_always_released_only :
+  o_out (run no_rx w_tab witness2) = Ok [("eduPersonTargetedID", VL ["t1"])].
+Proof. vm_compute. reflexivity. Qed.
+
+(* non-vacuity: a request on which every filter bites.
    Section for the SP restricts mail to example.org addresses; givenName is only optional. *)
 Definition ex_rx (r v : string) : bool :=
   String.eqb r ".*@example\.org$" && String.eqb v "a@example.org".
@@ -1102,10 +1140,10 @@ Definition witness_ok : input :=
      i_pol := Some [("default", Some {| s_ar := None; s_fail := None; s_ecs := []; s_bare := false |});
                     ("https://sp.example.org/sp.xml",
                      Some {| s_ar := Some [("mail", Some [".*@example\.org$"])]; s_fail := None; s_ecs := []; s_bare := false |})];
-     i_sp := "https://sp.example.org/sp.xml"; i_md := Some (w_md false); i_entry := EServer |}.
+     i_sp := "https://sp.example.org/sp.xml"; i_md := Some (w_md false); i_entry := EServer false |}.
 
 Example witness_ok_guarded :
-  guard ex_rx [] witness_ok = true
+  guard [] witness_ok = true
   /\ o_out (run ex_rx [] witness_ok) = Ok [("mail", VL ["a@example.org"])].
 Proof. vm_compute. split; reflexivity. Qed.
 
@@ -1118,8 +1156,12 @@ Definition witness_ec : input :=
      i_pol := Some [("default", Some {| s_ar := None; s_fail := None; s_ecs := ["m"]; s_bare := false |})];
      i_sp := "https://sp.example.org/sp.xml";
      i_md := Some {| md_ras := []; md_sid := None; md_sid_loc := (None, None); md_ecs := ["http://ec/rs"]; md_ra := None |};
-     i_entry := EApply |}.
+     i_entry := EApply None |}.
 Example witness_ec_guarded :
-  guard no_rx w_tab2 witness_ec = true
+  guard w_tab2 witness_ec = true
   /\ o_out (run no_rx w_tab2 witness_ec) = Ok [("mail", VL ["a@example.org"; "b@example.com"])].
 Proof. vm_compute. split; reflexivity. Qed.
+
+(* non-vacuity of missing_required_is_error at the Server: witness1 satisfies must_fail *)
+Example witness1_must_fail : must_fail [] (flat witness1).
+Proof. apply must_fail_b_iff. vm_compute. reflexivity. Qed.
